@@ -2,6 +2,9 @@ import RsslVerif.Lemmas.LexerStream
 import RsslVerif.Lemmas.LexerInt
 import RsslVerif.Lemmas.LexerFloat
 import RsslVerif.Lemmas.Dec2Bin
+import RsslVerif.Lemmas.Dec2BinNearest
+import RsslVerif.Lemmas.Dec2BinCutoff
+import RsslVerif.Lemmas.Dec2BinMono
 /-!
 # C10 — lexing is lossless and numeric literals are exact
 
@@ -106,10 +109,13 @@ theorem lexing_terminates (s : Bytes) (trailing debug : Bool) :
     rw [hr] at hf
     simpa using hf
 
-/-- The only panic `read_to_end` can reach is the pointer-range `debug_assert!` on the `&[]` that
-`end_of_stream()` returns, and only in builds with debug assertions. -/
-theorem read_panics_only_static_rest {s : Bytes} {trailing debug : Bool} {site : String}
-    (h : readToEnd s trailing debug = .error (.panic site)) : site = "static-rest" ∧ debug = true := by
+/-- **read_never_panics**: `read_to_end` reaches none of the panic sites of `TokenStream::next`
+(`assert!(!self.last_was_endline)`, the slice index, the subtraction, the three `debug_assert!`s) nor the
+`debug_assert_eq!`s of `choose` / `token_intermediate`, in debug and in release builds, for every input.
+(Before fix c600801 the pointer-range assertions failed for the `&[]` of `end_of_stream()`.) -/
+theorem read_never_panics (s : Bytes) (trailing debug : Bool) (site : String) :
+    readToEnd s trailing debug ≠ .error (.panic site) := by
+  intro h
   unfold readToEnd at h
   have hp := readAll_post s trailing debug false
   split at h
@@ -117,20 +123,14 @@ theorem read_panics_only_static_rest {s : Bytes} {trailing debug : Bool} {site :
   · rename_i ts' e hr
     simp at h; subst h
     rw [hr] at hp
-    exact ⟨hp.2.1, hp.2.2.1⟩
+    exact hp.2
 
-/-- Release builds (no debug assertions): lexing never panics. -/
-theorem release_build_never_panics (s : Bytes) (trailing : Bool) (site : String) :
-    readToEnd s trailing false ≠ .error (.panic site) := by
-  intro h
-  have := (read_panics_only_static_rest h).2
-  cases this
-
-/-- … and the debug-build panic is real: an unterminated block comment (`/*`). Replayed on the real code by
-the corpus (`known_findings.jsonl`). -/
-theorem debug_build_panics_on_unterminated_comment :
-    (match readToEnd [47, 42] true true with | .error (.panic site) => some site | _ => none)
-      = some "static-rest" := by decide
+/-- regression witness for c600801: an unterminated block comment (`/*`) and a file ending in `0x` are
+diagnosed with `EndOfStream` at the end of the file -/
+example : (match readToEnd [47, 42] true true with | .error (.lexer r off) => some (r, off) | _ => none)
+    = some (.EndOfStream, 2) := by decide
+example : (match readToEnd [48, 120] true true with | .error (.lexer r off) => some (r, off) | _ => none)
+    = some (.EndOfStream, 2) := by decide
 
 /-- non-vacuity of `spans_tile`: `a<b // c⏎` followed by a line splice lexes to seven tokens + synthetic endline -/
 example : (readToEnd [97, 60, 98, 32, 47, 47, 99, 10, 92, 10]).toOption.map (·.map fun t => (t.start, t.stop))
@@ -151,65 +151,97 @@ theorem IsRadix.facts {f : UInt8 → Option Nat} {base : Nat} (h : IsRadix f bas
   · exact ⟨by omega, fun b d h => by have := hexDigit_lt b d h; omega⟩
   · exact ⟨by omega, fun b d h => by have := octDigit_lt b d h; omega⟩
 
-/-- **int_value_exact** (`literal_decimal_int` / `literal_hex_int` / `literal_octal_int`): an accepted literal
-consumed the maximal run of digits, that run's positional value `v` fits in 64 bits and is exactly what the
-token is built from (`mkIntToken v suffix`). -/
-theorem int_value_exact {f : UInt8 → Option Nat} {base : Nat} (hr : IsRadix f base) {inp rest : Bytes}
-    {tok : Token} (h : literalIntWith f base inp = .ok (rest, tok)) :
-    ∃ k, tok = mkIntToken (Dec2Bin.ofDigits base (digitRun f inp)) k ∧
-      Dec2Bin.ofDigits base (digitRun f inp) < 2 ^ 64 ∧
-      rest = (opt (intType (afterRun f inp)) (afterRun f inp)).1 := by
-  obtain ⟨hb, hf⟩ := hr.facts
-  cases inp with
-  | nil => simp [literalIntWith, digitsWith, digitWith, endOfStream] at h
-  | cons b r =>
-    cases hd : f b with
-    | none => simp [literalIntWith, digitsWith, digitWith, hd, wrongChars] at h
-    | some d =>
-      unfold literalIntWith at h
-      rw [digitsWith_closed f base hb hf b r d hd] at h
-      by_cases hlt : Dec2Bin.ofDigits base (digitRun f (b :: r)) < 2 ^ 64
-      · simp only [hlt, if_true] at h
-        simp at h
-        exact ⟨_, h.2.symm, hlt, h.1.symm⟩
-      · simp only [hlt, if_false] at h
-        cases h
-
-/-- **int_value_exact_partial**: the accepted token *denotes* the written value — for every suffix except
-`l`/`L` on a value ≥ 2^63 (see `int_value_exact_fails_for_suffix_l`; that case is the reason this is
-`_partial`). -/
-theorem int_value_exact_partial {f : UInt8 → Option Nat} {base : Nat} (hr : IsRadix f base) {inp rest : Bytes}
-    {tok : Token} (h : literalIntWith f base inp = .ok (rest, tok))
-    (hs : (opt (intType (afterRun f inp)) (afterRun f inp)).2 ≠ some .Signed64 ∨
-          Dec2Bin.ofDigits base (digitRun f inp) < 2 ^ 63) :
-    tok.intValue? = some (Dec2Bin.ofDigits base (digitRun f inp) : Int) := by
-  obtain ⟨hb, hf⟩ := hr.facts
-  cases inp with
-  | nil => simp [literalIntWith, digitsWith, digitWith, endOfStream] at h
-  | cons b r =>
-    cases hd : f b with
-    | none => simp [literalIntWith, digitsWith, digitWith, hd, wrongChars] at h
-    | some d =>
-      unfold literalIntWith at h
-      rw [digitsWith_closed f base hb hf b r d hd] at h
-      by_cases hlt : Dec2Bin.ofDigits base (digitRun f (b :: r)) < 2 ^ 64
-      · simp only [hlt, if_true] at h
-        simp at h
-        rw [← h.2]
-        exact mkIntToken_value _ _ hs
-      · simp only [hlt, if_false] at h
-        cases h
-
-/-- **int_overflow_rejected**: a digit run whose value does not fit in 64 bits is never accepted: the literal
-is rejected with `IntegerLiteralTooLarge` positioned at its first digit. -/
-theorem int_overflow_rejected {f : UInt8 → Option Nat} {base : Nat} (hr : IsRadix f base) (b : UInt8) (r : Bytes)
-    (d : Nat) (hd : f b = some d) (hbig : 2 ^ 64 ≤ Dec2Bin.ofDigits base (digitRun f (b :: r))) :
-    literalIntWith f base (b :: r) = .error (.lex (.rest (b :: r)) .IntegerLiteralTooLarge) := by
+/-- closed form of `literal_decimal_int` / `literal_hex_int` / `literal_octal_int` on an input starting with a
+digit: with `v` the positional value of the maximal digit run and `k` the suffix that follows it -/
+theorem literalIntWith_closed {f : UInt8 → Option Nat} {base : Nat} (hr : IsRadix f base) (b : UInt8) (r : Bytes)
+    (d : Nat) (hd : f b = some d) :
+    literalIntWith f base (b :: r) =
+      (if Dec2Bin.ofDigits base (digitRun f (b :: r)) < 2 ^ 64 then
+        (match mkIntToken? (Dec2Bin.ofDigits base (digitRun f (b :: r)))
+                 (opt (intType (afterRun f (b :: r))) (afterRun f (b :: r))).2 with
+         | some tok => .ok ((opt (intType (afterRun f (b :: r))) (afterRun f (b :: r))).1, tok)
+         | none => .error (.lex (.rest (b :: r)) .IntegerLiteralTooLarge))
+       else .error (.lex (.rest (b :: r)) .IntegerLiteralTooLarge)) := by
   obtain ⟨hb, hf⟩ := hr.facts
   unfold literalIntWith
   rw [digitsWith_closed f base hb hf b r d hd]
-  have : ¬ Dec2Bin.ofDigits base (digitRun f (b :: r)) < 2 ^ 64 := by omega
-  simp [this]
+  by_cases hlt : Dec2Bin.ofDigits base (digitRun f (b :: r)) < 2 ^ 64
+  · simp only [hlt, if_true]
+    split <;> (rename_i hk; simp [hk])
+  · simp only [hlt, if_false]
+
+/-- **int_value_exact** (full strength since fixes dc17362 and 93e9a96): an accepted integer literal consumed the
+maximal run of digits and its suffix, the token denotes exactly the run's positional value `v`, and `v` fits the
+type the suffix names (`u` ⇒ `< 2^32`, `l` ⇒ `< 2^63`, none / `ul` ⇒ `< 2^64`). -/
+theorem int_value_exact {f : UInt8 → Option Nat} {base : Nat} (hr : IsRadix f base) {inp rest : Bytes}
+    {tok : Token} (h : literalIntWith f base inp = .ok (rest, tok)) :
+    tok.intValue? = some (Dec2Bin.ofDigits base (digitRun f inp) : Int) ∧ tok.intInRange ∧
+    Dec2Bin.ofDigits base (digitRun f inp) < 2 ^ 64 ∧
+    mkIntToken? (Dec2Bin.ofDigits base (digitRun f inp)) (opt (intType (afterRun f inp)) (afterRun f inp)).2
+      = some tok ∧
+    rest = (opt (intType (afterRun f inp)) (afterRun f inp)).1 := by
+  obtain ⟨hb, hf⟩ := hr.facts
+  cases inp with
+  | nil => simp [literalIntWith, digitsWith, digitWith, endOfStream] at h
+  | cons b r =>
+    cases hd : f b with
+    | none => simp [literalIntWith, digitsWith, digitWith, hd, wrongChars] at h
+    | some d =>
+      rw [literalIntWith_closed hr b r d hd] at h
+      by_cases hlt : Dec2Bin.ofDigits base (digitRun f (b :: r)) < 2 ^ 64
+      · simp only [hlt, if_true] at h
+        split at h
+        · rename_i tok' hk
+          simp at h
+          obtain ⟨h1, h2⟩ := h
+          subst h1 h2
+          exact ⟨mkIntToken?_value hk, mkIntToken?_inRange hlt hk, hlt, hk, rfl⟩
+        · cases h
+      · simp only [hlt, if_false] at h
+        cases h
+
+/-- **int_overflow_rejected**: a literal that does not fit — the digit run is `≥ 2^64`, or `≥ 2^32` with suffix
+`u`, or `≥ 2^63` with the signed suffix `l` (`SuffixOverflow`) — is never accepted: `IntegerLiteralTooLarge` at its
+first digit. -/
+theorem int_overflow_rejected {f : UInt8 → Option Nat} {base : Nat} (hr : IsRadix f base) (b : UInt8) (r : Bytes)
+    (d : Nat) (hd : f b = some d)
+    (hbig : 2 ^ 64 ≤ Dec2Bin.ofDigits base (digitRun f (b :: r)) ∨
+      SuffixOverflow (Dec2Bin.ofDigits base (digitRun f (b :: r)))
+        (opt (intType (afterRun f (b :: r))) (afterRun f (b :: r))).2) :
+    literalIntWith f base (b :: r) = .error (.lex (.rest (b :: r)) .IntegerLiteralTooLarge) := by
+  rw [literalIntWith_closed hr b r d hd]
+  by_cases hlt : Dec2Bin.ofDigits base (digitRun f (b :: r)) < 2 ^ 64
+  · simp only [hlt, if_true]
+    rcases hbig with hbig | hbig
+    · omega
+    · rw [mkIntToken?_none.mpr hbig]
+  · simp only [hlt, if_false]
+
+/-- **int_rejected_only_when_too_large**: conversely, `IntegerLiteralTooLarge` is reported only for a literal that
+really does not fit its type. -/
+theorem int_rejected_only_when_too_large {f : UInt8 → Option Nat} {base : Nat} (hr : IsRadix f base) {inp : Bytes}
+    {pos : ErrAt} (h : literalIntWith f base inp = .error (.lex pos .IntegerLiteralTooLarge)) :
+    pos = .rest inp ∧
+    (2 ^ 64 ≤ Dec2Bin.ofDigits base (digitRun f inp) ∨
+      SuffixOverflow (Dec2Bin.ofDigits base (digitRun f inp))
+        (opt (intType (afterRun f inp)) (afterRun f inp)).2) := by
+  cases inp with
+  | nil => simp [literalIntWith, digitsWith, digitWith, endOfStream] at h
+  | cons b r =>
+    cases hd : f b with
+    | none => simp [literalIntWith, digitsWith, digitWith, hd, wrongChars] at h
+    | some d =>
+      rw [literalIntWith_closed hr b r d hd] at h
+      by_cases hlt : Dec2Bin.ofDigits base (digitRun f (b :: r)) < 2 ^ 64
+      · simp only [hlt, if_true] at h
+        split at h
+        · cases h
+        · rename_i hk
+          simp at h
+          exact ⟨h.symm, .inr (mkIntToken?_none.mp hk)⟩
+      · simp only [hlt, if_false] at h
+        simp at h
+        exact ⟨h.symm, .inl (by omega)⟩
 
 /-- `literal_int` picks the radix from the prefix and then behaves as above -/
 theorem literalInt_radix (inp : Bytes) :
@@ -227,18 +259,22 @@ theorem literalInt_radix (inp : Bytes) :
       · exact .inr (.inr rfl)
     · exact .inr (.inr rfl)
 
-/-- **The full statement "an accepted integer literal denotes exactly its written value" is false on the
-pinned code**: `9223372036854775808l` (2^63, fits in 64 bits) is accepted and denotes `-2^63`
-(`value as i64` in `literal_decimal_int`). Replayed on the real lexer by `corpus/C10.txt`
-(known finding). -/
-theorem int_value_exact_fails_for_suffix_l :
-    (match literalInt [57, 50, 50, 51, 51, 55, 50, 48, 51, 54, 56, 53, 52, 55, 55, 53, 56, 48, 56, 108] with
+/-- regression witness for dc17362: `9223372036854775808l` (2^63 with the signed suffix) is rejected at offset 0;
+`9223372036854775807l` is accepted with its written value -/
+example : (match literalInt [57, 50, 50, 51, 51, 55, 50, 48, 51, 54, 56, 53, 52, 55, 55, 53, 56, 48, 56, 108] with
+     | .error (.lex (.rest r) k) => some (r.length, k) | _ => none) = some (20, .IntegerLiteralTooLarge) := by decide
+example : (match literalInt [57, 50, 50, 51, 51, 55, 50, 48, 51, 54, 56, 53, 52, 55, 55, 53, 56, 48, 55, 108] with
      | .ok (rest, tok) => (rest.length, tok.intValue?)
-     | .error _ => (1, none)) = (0, some (-9223372036854775808)) := by decide
+     | .error _ => (1, none)) = (0, some 9223372036854775807) := by decide
 
 /-- non-vacuity: `0x7fFFu;` is accepted with value 32767, `18446744073709551616` is rejected -/
 example : (match literalInt [48, 120, 55, 102, 70, 70, 117, 59] with
      | .ok (rest, tok) => (rest, tok.intValue?) | .error _ => ([], none)) = ([59], some 32767) := by decide
+/-- regression witness for 93e9a96: `4294967296u` is rejected, `4294967295u` accepted -/
+example : (match literalInt [52, 50, 57, 52, 57, 54, 55, 50, 57, 54, 117] with
+     | .error (.lex (.rest r) k) => some (r.length, k) | _ => none) = some (11, .IntegerLiteralTooLarge) := by decide
+example : (match literalInt [52, 50, 57, 52, 57, 54, 55, 50, 57, 53, 117] with
+     | .ok (rest, tok) => (rest.length, tok.intValue?) | .error _ => (1, none)) = (0, some 4294967295) := by decide
 example : (match literalInt [49, 56, 52, 52, 54, 55, 52, 52, 48, 55, 51, 55, 48, 57, 53, 53, 49, 54, 49, 54] with
      | .error (.lex _ r) => some r | _ => none) = some .IntegerLiteralTooLarge := by decide
 
@@ -277,7 +313,7 @@ token carries `narrowOnce suffix (nearest64 (left ++ right) (exp - |right|))`: t
 theorem lex_float_nearest {inp rest : Bytes} {tok : Token} (h : literalFloat inp = .ok (rest, tok)) :
     ∃ (hasFraction : Bool) (left right : List Nat) (i2 : Bytes) (ty : Option FloatType),
       inp = left.map digitByte ++ ((if hasFraction then 46 :: right.map digitByte else []) ++ i2) ∧
-      (hasFraction = false → right = []) ∧
+      (hasFraction = false → right = []) ∧ (∀ d ∈ left ++ right, d < 10) ∧
       (tok.floatBits? = some (narrowOnce ty
           (Dec2Bin.nearest64 (left ++ right) ((opt (floatExponent i2) i2).2.getD 0 - right.length))) ∨
        ((opt (floatExponent i2) i2).2 = none ∧
@@ -285,7 +321,7 @@ theorem lex_float_nearest {inp rest : Bytes} {tok : Token} (h : literalFloat inp
         tok.floatBits? = some (narrowOnce ty Dec2Bin.binary64.infBits))) := by
   obtain ⟨hf, l, r, i2, ty, hm, hv⟩ := literalFloat_value h
   have ht := floatMantissa_text hm
-  exact ⟨hf, l, r, i2, ty, ht.1, ht.2, hv⟩
+  exact ⟨hf, l, r, i2, ty, ht.1, ht.2, floatMantissa_lt hm, hv⟩
 
 /-- non-vacuity / regression witnesses for the defect fixed in c2067b9: `0.0031308` and `0.055L` are the
 nearest doubles (the old digit-by-digit accumulation gave `…bd`+1 and `…29`+1) -/
@@ -297,17 +333,45 @@ example : (match literalFloat [48, 46, 48, 53, 53, 76] with
 /-! ## Part 4 — the rounding reference itself (`Spec/Dec2Bin.lean`) against the mathematical statement -/
 
 open Dec2Bin in
-/-- `nearest64 (digits, e)` is `nearestRat binary64` of the exact rational `digits × 10^e`, except for the two
-cut-offs that avoid astronomically large powers (`e > 400` ⟹ `+∞`, `e + |digits| < -400` ⟹ `0`; those two
-shortcuts are checked by the correspondence run only, class `float.huge_exponent`). -/
-theorem nearest64_unfold (ds : List Nat) (e : Int) (hD : ofDigits 10 ds ≠ 0) (h1 : e ≤ 400)
-    (h2 : -400 ≤ e + ds.length) :
-    nearest64 ds e =
-      if 0 ≤ e then nearestRat binary64 (ofDigits 10 ds * 10 ^ e.toNat) 1
-      else nearestRat binary64 (ofDigits 10 ds) (10 ^ (-e).toNat) := by
-  unfold nearest64 nearestDec
-  dsimp only
-  rw [if_neg hD, if_neg (by omega), if_neg (by omega)]
+/-- **nearest_correct**: for every positive rational `x = N / M`, `nearestRat f N M` is the bit pattern IEEE 754
+prescribes for round-to-nearest-ties-to-even (`Spec.Dec2Bin.IsNearestEven`: unit in the last place of `x`'s binade
+with gradual underflow, no value with a `p`-bit significand and exponent `≥ emin` closer, at most half an ulp off,
+exactly half ⇒ even significand, `+∞` exactly when the result rounded with unbounded exponent reaches
+`2^(emax+1)`). Both formats. -/
+theorem nearest_correct (f : Fmt) (hf : f = binary64 ∨ f = binary32) (N M : Nat) (hN : 0 < N) (hM : 0 < M) :
+    IsNearestEven f N M (nearestRat f N M) :=
+  nearestRat_isNearestEven f (by rcases hf with h | h <;> subst h <;> decide)
+    (by rcases hf with h | h <;> subst h <;> decide) N M hN hM
+
+open Dec2Bin in
+/-- **nearest64_total**: for every decimal digit string and every exponent, `nearest64 (digits, e)` is
+`nearestRat binary64` of the exact rational `digits × 10^e` — the two cut-offs of `nearestDec` (`e > 400` ⟹ `+∞`,
+`e + |digits| < -400` ⟹ `0`, which avoid astronomically large powers) are proved to agree with it. -/
+theorem nearest64_total (ds : List Nat) (e : Int) (hds : ∀ d ∈ ds, d < 10) :
+    nearest64 ds e = nearestRat binary64 (decimalRat ds e).1 (decimalRat ds e).2 := by
+  rw [nearest64_eq_nearestRat ds e hds]
+  unfold decimalRat
+  split <;> rfl
+
+open Dec2Bin in
+/-- **nearest64_correct**: the value the lexer model gives a float literal is the correctly rounded double of its
+decimal text: `IsNearestEven binary64 (digits × 10^e) (nearest64 digits e)` for every non-zero digit string and
+every exponent (a zero digit string gives `+0`). -/
+theorem nearest64_correct (ds : List Nat) (e : Int) (hds : ∀ d ∈ ds, d < 10) (hD : ofDigits 10 ds ≠ 0) :
+    IsNearestEven binary64 (decimalRat ds e).1 (decimalRat ds e).2 (nearest64 ds e) := by
+  rw [nearest64_total ds e hds]
+  have hDpos : 0 < ofDigits 10 ds := Nat.pos_of_ne_zero hD
+  apply nearest_correct binary64 (.inl rfl)
+  · unfold decimalRat; split
+    · exact Nat.mul_pos hDpos (Nat.pow_pos (by omega))
+    · exact hDpos
+  · unfold decimalRat; split
+    · exact Nat.one_pos
+    · exact Nat.pow_pos (by omega)
+
+open Dec2Bin in
+theorem nearest64_zero (ds : List Nat) (e : Int) (hD : ofDigits 10 ds = 0) : nearest64 ds e = 0 := by
+  unfold nearest64 nearestDec; simp [hD]
 
 open Dec2Bin in
 /-- **nearest_correct_partial**: for every positive rational `x = N / M` the reference returns the encoding of
@@ -337,6 +401,25 @@ theorem nearest_correct_partial (f : Fmt) (hf : f = binary64 ∨ f = binary32) (
   exact ⟨q, A, B, m, h1, h2, h3, h4, h5, h6,
     fun hq T m' hT hm' => finer_grid_not_closer f.p A B m m' T h2 (by omega) (h8 hq) hm' hT h4,
     h7, h8, h9, h10, h11⟩
+
+open Dec2Bin in
+/-- **nearest_monotone**: `N/M ≤ N'/M'` ⟹ `nearestRat f N M ≤ nearestRat f N' M'` (the bit patterns of non-negative
+floats are ordered like their values, `+∞` on top) -/
+theorem nearest_monotone (f : Fmt) (hf : f = binary64 ∨ f = binary32) (N M N' M' : Nat) (hM : 0 < M) (hM' : 0 < M')
+    (h : N * M' ≤ N' * M) : nearestRat f N M ≤ nearestRat f N' M' :=
+  nearestRat_mono f (by rcases hf with h | h <;> subst h <;> decide) N M N' M' hM hM' h
+
+open Dec2Bin in
+/-- … and for decimal texts: a literal that spells a larger number never lexes to a smaller double -/
+theorem nearest64_monotone (ds ds' : List Nat) (e e' : Int) (hds : ∀ d ∈ ds, d < 10) (hds' : ∀ d ∈ ds', d < 10)
+    (h : (decimalRat ds e).1 * (decimalRat ds' e').2 ≤ (decimalRat ds' e').1 * (decimalRat ds e).2) :
+    nearest64 ds e ≤ nearest64 ds' e' := by
+  rw [nearest64_total ds e hds, nearest64_total ds' e' hds']
+  have pos : ∀ (l : List Nat) (x : Int), 0 < (decimalRat l x).2 := by
+    intro l x; unfold decimalRat; split
+    · exact Nat.one_pos
+    · exact Nat.pow_pos (by omega)
+  exact nearest_monotone binary64 (.inl rfl) _ _ _ _ (pos ds e) (pos ds' e') h
 
 open Dec2Bin in
 /-- **nearest_exact_on_representable**: a positive finite value `m · 2^q` of the format (canonical
